@@ -273,7 +273,7 @@ def check_toml(case):
 # 5. YAML (strings not ending in a newline): std.parseYaml reads the document back
 
 def no_trailing_newline_strings(max_size=10):
-    s = st.one_of(V.strings(max_size), st.sampled_from(V.YAML_HOSTILE))
+    s = st.one_of(V.strings(max_size), st.sampled_from(V.YAML_HOSTILE), st.sampled_from(V.TRICKY))
     return s.filter(lambda x: not x.endswith("\n"))
 
 
